@@ -56,7 +56,7 @@ package adapter
 //@ macro ibcRoute(a) = mapGet(a.router.routes, core.PROTOCOL_IBC)
 //@ func (a *Adapter) AdaptPacket(ctx, id, packet) (op, err)
 //@   requires[inv] a != nil && a.logger != nil && a.router != nil
-//@   requires[inv] mapHas(a.router.routes, core.PROTOCOL_IBC) && tag(ibcRoute(a)) != 0
+//@   requires[inv] mapHas(a.router.routes, core.PROTOCOL_IBC) && tag(ibcRoute(a)) != 0 && routesNonNil(a.router)
 
 //@ func (a *Adapter) BeforeTransferHook(ctx, packet) (err)
 //@   requires[inv] a != nil && a.logger != nil && a.bankKeeper != nil
